@@ -278,4 +278,18 @@ def run(ctx):
 
 
 def replay(ctx, payload):
+    hist = (payload.get("detail") or {}).get("history")
+    if hist:
+        def report(where, flag, cached, actual, q, history):
+            ctx.violation("flag:" + where.split(":")[-1], [flag, cached],
+                          "cached %s=%s contradicts the matrix (recomputed %s) after %s" % (
+                              flag, cached, actual, history),
+                          {"operation": where, "flag": flag, "cached": cached, "recomputed": actual,
+                           "history": history})
+        try:
+            if c03_oracle.replay_history(hist, report):
+                return
+        except Exception as ex:
+            ctx.log("replay of the recorded history raised %s: %s; running the whole oracle" % (
+                type(ex).__name__, ex))
     run_oracle(ctx, 300)
